@@ -18,9 +18,19 @@ type exprContext struct {
 	contextPosition  int
 	contextSize      int
 	reverseAxis      bool
+	principal        principalNodeType
 	builtinFunctions map[XmlName]Function
 	ContextSettings
 }
+
+// The principal node type of the axis of the step being evaluated.
+type principalNodeType int
+
+const (
+	principalElement principalNodeType = iota
+	principalAttribute
+	principalNamespace
+)
 
 type Context interface {
 	Result() Result
